@@ -301,3 +301,82 @@ package decoder
 //@   loop 1: invariant ctx.Buf == old(ctx.Buf) && ctx.Option == old(ctx.Option) && ctx.Option.Path == old(ctx.Option.Path) && ctx.Option.Path.node == old(ctx.Option.Path.node)
 //@   loop 2: invariant old(cursor) <= cursor && cursor < len(buf) && buf[len(buf)-1] == 0 && buf == old(ctx.Buf)
 //@   loop 2: invariant ctx.Buf == old(ctx.Buf) && ctx.Option == old(ctx.Option) && ctx.Option.Path == old(ctx.Option.Path) && ctx.Option.Path.node == old(ctx.Option.Path.node)
+
+// ---------------------------------------------------------------- JSON Path parser: never panics, always terminates (C20, C06)
+// measure: twice the remaining length, plus one for the helper that only forwards (so that every call in the
+// mutually recursive group strictly decreases it)
+//@ func (*PathBuilder).addIndexAllNode(b)
+//@   props C20
+//@   trusted allocates a path node and links it (interface call chain)
+//@   requires b != nil
+//@   assigns PathBuilder.root, PathBuilder.node
+//@ func (*PathBuilder).addRecursiveNode(b, selector)
+//@   props C20
+//@   trusted allocates a path node and links it (interface call chain)
+//@   requires b != nil
+//@   assigns PathBuilder.root, PathBuilder.node
+//@ func (*PathBuilder).addSelectorNode(b, name)
+//@   props C20
+//@   trusted allocates a path node and links it (interface call chain)
+//@   requires b != nil
+//@   assigns PathBuilder.root, PathBuilder.node
+//@ func (*PathBuilder).addIndexNode(b, idx)
+//@   props C20
+//@   trusted allocates a path node and links it (interface call chain)
+//@   requires b != nil
+//@   assigns PathBuilder.root, PathBuilder.node
+
+//@ func (*PathBuilder).buildNext(b, buf) (offset, err)
+//@   props C20 C06
+//@   requires b != nil && len(buf) >= 1
+//@   measure 2 * len(buf)
+//@   ensures err == nil ==> 0 <= offset && offset <= 2 * len(buf)
+//@   assigns PathBuilder.root, PathBuilder.node, PathBuilder.singleQuotePathSelector, PathBuilder.doubleQuotePathSelector
+
+//@ func (*PathBuilder).buildNextCharIfExists(b, buf, cursor) (offset, err)
+//@   props C20 C06
+//@   requires b != nil && 1 <= cursor && cursor <= len(buf)
+//@   measure 2 * (len(buf) - cursor) + 1
+//@   ensures err == nil ==> 0 <= offset && offset <= 2 * len(buf)
+//@   assigns PathBuilder.root, PathBuilder.node, PathBuilder.singleQuotePathSelector, PathBuilder.doubleQuotePathSelector
+
+//@ func (*PathBuilder).buildSelector(b, buf) (offset, err)
+//@   props C20 C06
+//@   requires b != nil && len(buf) >= 1
+//@   measure 2 * len(buf)
+//@   ensures err == nil ==> 0 <= offset && offset <= 2 * len(buf)
+//@   assigns PathBuilder.root, PathBuilder.node, PathBuilder.singleQuotePathSelector, PathBuilder.doubleQuotePathSelector
+//@   loop 1: invariant 0 <= cursor && cursor <= len(buf)
+//@   loop 1: decreases len(buf) - cursor
+
+//@ func (*PathBuilder).buildQuoteSelector(b, buf, sel) (offset, err)
+//@   props C20 C06
+//@   requires b != nil && len(buf) >= 1
+//@   measure 2 * len(buf)
+//@   ensures err == nil ==> 0 <= offset && offset <= 2 * len(buf)
+//@   assigns PathBuilder.root, PathBuilder.node, PathBuilder.singleQuotePathSelector, PathBuilder.doubleQuotePathSelector
+//@   loop 1: invariant 0 <= cursor && cursor <= len(buf)
+//@   loop 1: decreases len(buf) - cursor
+
+//@ func (*PathBuilder).buildPathRecursive(b, buf) (offset, err)
+//@   props C20 C06
+//@   requires b != nil && len(buf) >= 1
+//@   measure 2 * len(buf)
+//@   ensures err == nil ==> 0 <= offset && offset <= 2 * len(buf)
+//@   assigns PathBuilder.root, PathBuilder.node, PathBuilder.singleQuotePathSelector, PathBuilder.doubleQuotePathSelector
+//@   loop 1: invariant 0 <= cursor && cursor <= len(buf)
+//@   loop 1: decreases len(buf) - cursor
+
+//@ func (*PathBuilder).buildIndex(b, buf) (offset, err)
+//@   props C20 C06
+//@   requires b != nil && len(buf) >= 1
+//@   measure 2 * len(buf)
+//@   ensures err == nil ==> 0 <= offset && offset <= 2 * len(buf)
+//@   assigns PathBuilder.root, PathBuilder.node, PathBuilder.singleQuotePathSelector, PathBuilder.doubleQuotePathSelector
+//@   loop 1: invariant 0 <= cursor && cursor <= len(buf)
+//@   loop 1: decreases len(buf) - cursor
+
+//@ func (*PathBuilder).build(b, buf) (node, err)
+//@   props C20 C06
+//@   requires b != nil
+//@   assigns PathBuilder.root, PathBuilder.node, PathBuilder.singleQuotePathSelector, PathBuilder.doubleQuotePathSelector
